@@ -105,7 +105,7 @@ def run(ctx: Ctx, rep: Report) -> None:
         "x690 encodes content octets deterministically; only the length form is analysed",
     ]
     v3 = mpm_class(ctx, 3)
-    enc = own_method(ctx, v3, "encode")
+    enc = ctx.inlined(own_method(ctx, v3, "encode"))  # small helpers of the class (lazy security model, local engine time) spliced in
     usm = usm_class(ctx)
     gen = own_method(ctx, usm, "generate_request_message")
     edefs = ctx.defs(enc)
@@ -144,6 +144,16 @@ def run(ctx: Ctx, rep: Report) -> None:
         else:
             for cls in sorted((c for c in ctx.u.classes.values() if c.module.name == "puresnmp.pdu" and ctx.r.is_subclass(c, pdu_base) and c != pdu_base), key=lambda c: c.name):
                 val = eval_pred(ctx, host, body_expr, subject, cls)
+                if val is None:
+                    # beyond the class-table reading (a lookup table walked along the MRO, ...): evaluate the
+                    # expression for an instance of the class
+                    from ..engine.minieval import Instance, MiniEval, Raised, Unevaluable
+
+                    try:
+                        got_v = MiniEval(ctx, max_steps=20000).eval(host, body_expr, {subject: Instance(cls, [], {})}, 0)
+                        val = bool(got_v) if isinstance(got_v, (bool, int)) else None
+                    except (Unevaluable, Raised):
+                        val = None
                 if cls.name in rfc.CONFIRMED_CLASS:
                     rep.check(val, "C10-R1", pred_site, f"{cls.name} is a confirmed-class PDU: requests carrying it are marked reportable", f"predicate `{norm(body_expr)[:80]}` evaluates to {val} for {cls.name}", key=f"reportable|{cls.name}|not-marked")
                 elif cls.name in rfc.UNCONFIRMED_CLASS:
@@ -205,7 +215,11 @@ def run(ctx: Ctx, rep: Report) -> None:
     if len(tcalls) == 1:
         tb = bind_call_args(tcalls[0], st.params)
         g2 = {k: norm(edefs.expand(v)) for k, v in tb.items()}
-        ok = g2.get(st.params[1]) == "self.disco.authoritative_engine_id" and g2.get(st.params[2]) == "self.disco.authoritative_engine_boots" and g2.get(st.params[3], "").startswith("self.disco.authoritative_engine_time")
+        t_arg = tb.get(st.params[3])
+        t_alts = [g2.get(st.params[3], "")]
+        if isinstance(t_arg, ast.Name) and len(edefs.all_values(t_arg.id)) > 1:
+            t_alts = [norm(edefs.expand(v)) for v in edefs.all_values(t_arg.id)]  # the return slot of a spliced helper: every alternative
+        ok = g2.get(st.params[1]) == "self.disco.authoritative_engine_id" and g2.get(st.params[2]) == "self.disco.authoritative_engine_boots" and all(t.startswith("self.disco.authoritative_engine_time") for t in t_alts)
         detail = f"{g2}"
     rep.check(ok, "C10-R2", enc.site(), "the timing cache is fed with the discovered engine id, boots and (discovered + locally elapsed) time before the request is built", detail, key=f"{enc.key}|timing-feed")
     gcalls = [n for n in own_nodes(enc.node) if isinstance(n, ast.Call) and isinstance(n.func, ast.Attribute) and n.func.attr == "generate_request_message"]
@@ -235,6 +249,10 @@ def run(ctx: Ctx, rep: Report) -> None:
         for n in own_nodes(host.node):
             if isinstance(n, ast.Call) and ctx.r.resolve_class(host.module, n.func) == params_cls:
                 pb = bind_call_args(n, dataclass_fields(params_cls), skip_self=False)
+                from ..engine.context import dataclass_defaults
+
+                for fld, dflt in dataclass_defaults(params_cls).items():
+                    pb.setdefault(fld, dflt)  # fields left to their declared defaults
                 want = {"authoritative_engine_id": roles.get("engine_id"), "authoritative_engine_boots": roles.get("boots"), "authoritative_engine_time": roles.get("time"), "user_name": roles.get("user"), "auth_params": "b''"}
                 g3 = {k: norm(v) for k, v in pb.items()}
                 for k, v in pb.items():
